@@ -23,6 +23,8 @@ for rf in sorted(glob.glob('/tmp/seedres/C*-*m*.json')):
     if not ok:
         print('NOT CONFIRMED', name, {k: res.get(k) for k in ('demo_clean_rc','demo_patched_rc','patch_applied','build_ok','baseline_tests_broken')}); continue
     dst = V / 'seeded' / name
+    if (dst / 'meta.json').exists() and not os.environ.get('REIMPORT'):
+        continue            # already imported (its meta.json may carry later annotations)
     if (dst / 'patch.as-delivered.diff').exists():
         # the patch kept here was re-applied by hand to a later tree: never overwrite it
         # with the delivered one
